@@ -128,3 +128,35 @@ def oracle_rigid_motion(R, tier, seed):
             else:
                 O["ok"] += 1
             R.mark("c11rigid", kind, nx, ny)
+
+
+def oracle_group_mesh_point_forces(R, tier, seed):
+    """inside AeroPoint (incompressible and Prandtl-Glauert states): the mesh-node forces exported to external solvers
+    (<surf>_mesh_point_forces) carry the total force and the total moment of the sectional forces acting at the quarter-chord
+    points of the (deformed) mesh - the WIRING of MeshPointForces inside the groups, which the component-level checks do
+    not see"""
+    from .. import aero as A
+    O = R.oracle("AeroPoint.mesh-point-forces-conserve-force-and-moment")
+    rng = gen.stable_rng(seed, "c11group")
+    for it in range(4 if tier == "quick" else 12):
+        comp = bool(it % 2)
+        kind = ("left", "full", "right")[it % 3]
+        nx, ny = [(2, 3), (3, 5), (4, 3)][int(rng.integers(0, 3))]
+        mesh = gen.rand_mesh(rng, nx, ny, kind, offset=False)
+        s = A.aero_surface(mesh, "w", kind != "full")
+        alpha = float(rng.uniform(1, 8)); M = float(rng.uniform(0.3, 0.85))
+        p = A.run(A.build_aero([s], alpha=alpha, Mach=M, compressible=comp, beta=(float(rng.uniform(-5, 5)) if kind == "full" else 0.0)))
+        F = A.g(p, "aero.aero_states.w_sec_forces"); mpf = A.g(p, "aero.aero_states.w_mesh_point_forces")
+        fp = 0.5 * (0.75 * mesh[:-1, :-1] + 0.25 * mesh[1:, :-1]) + 0.5 * (0.75 * mesh[:-1, 1:] + 0.25 * mesh[1:, 1:])
+        pt = rng.normal(size=3)
+        Ftot = F.sum(axis=(0, 1)); Mtot = np.cross(fp - pt, F).sum(axis=(0, 1))
+        e_f = _rel(mpf.sum(axis=(0, 1)), Ftot, max(np.abs(F).sum(), 1e-300))
+        e_m = _rel(np.cross(mesh - pt, mpf).sum(axis=(0, 1)), Mtot, max(np.abs(fp - pt).max() * np.abs(F).sum(), 1e-300))
+        O["cases"] += 1; O["worst"] = max(O["worst"], e_f, e_m)
+        if e_f > 1e-10 or e_m > 1e-10:
+            O["failures"].append({"key": "C11:AeroPoint(%s):mesh-point-forces-total-force-moment" % ("compressible" if comp else "incompressible"),
+                                  "case": {"kind": kind, "nx": nx, "ny": ny, "alpha": alpha, "Mach": M, "compressible": comp, "seed": seed, "it": it},
+                                  "force_err": e_f, "moment_err": e_m, "mesh": mesh.tolist()})
+        else:
+            O["ok"] += 1
+        R.mark("c11group", it)
